@@ -106,6 +106,7 @@ def run(ctx):
         lines, ids = pdbgen.multichain(rnd, nchains=rnd.randint(1, 2))
         inputs.append(("gen%d" % i, pdbgen.text(lines)))
     inputs.append(("ss-bridge", pdbgen.text(pdbgen.ss_fragment())))
+    inputs.append(("nterm-asp", pdbgen.text(pdbgen.nterm_asp_fragment())))
     lbad, obad, rbad = [], [], []
     freqs, freals, preqs, preals = [], [], [], []
     for name, text in inputs:
